@@ -261,9 +261,13 @@ def r6(tree, prog, rep):
     ok = False
     if fn is not None:
         g = build(fn)
+        from ..astutil import callback_function
+
+        def reports_loss(cb):
+            f = callback_function(cb, fn, dict(D.methods))
+            return f is not None and any(isinstance(x, ast.Call) and (dotted(x.func) or "").endswith("connector_connection_lost") for x in ast.walk(f))
         reg = g.call_nodes(lambda c: isinstance(c.func, ast.Attribute) and c.func.attr in ("addCallback", "addBoth") and isinstance(c.func.value, ast.Call)
-                           and dotted(c.func.value.func) == "self.when_disconnected"
-                           and any("connector_connection_lost" in (dotted(x.func) or "") for a in c.args for x in ast.walk(a) if isinstance(x, ast.Call)))
+                           and dotted(c.func.value.func) == "self.when_disconnected" and c.args and reports_loss(c.args[0]))
         ok = len(reg) == 1 and g.must_pass(reg)
     rep.check("C11.R6", "set_manager chains manager.connector_connection_lost on the connection's when_disconnected() observer "
               "(fires even if the connection was already lost when it got selected)", ok, site(fn, D.file) if fn else D.file, key="C11.R6:set_manager:lost-callback",
